@@ -1,5 +1,6 @@
 """C03 - lead-time exactness, exact on-order."""
 import simlib, simstream, mplib
+from fractions import Fraction as F
 TRUSTED = ["exact regime; single-product networks only at network level"]
 FIELDS = ['oq', 'io', 'iopl', 'os', 'is', 'ispl', 'idi', 'oo', 'bo', 'odi', 'disrupted']
 THEOREM = 'Props/C03.list (on_order_exact_period, on_order_exact_ext, orders_arrive, shiftPipe_get)'
@@ -17,7 +18,44 @@ def run(rep, drv):
 	simstream.run_stream(rep, drv, 'sim-trace', 600 if th else 80, FIELDS, oracle, THEOREM, th, force={'label0': True, 'pdis': .8}, seed_off=103)
 	# tracer: one marked order in an otherwise quiet history must be received exactly olt + slt periods later
 	simstream.run_stream(rep, drv, 'sim-trace-nodisruption', 600 if th else 60, FIELDS, oracle, THEOREM, th, force={'pdis': 0.0}, seed_off=33)
+	import random
+	rngo = random.Random(rep.seed * 13 + 303)
+	for k in range(400 if th else 60):
+		override_case(rep, drv, simlib.gen_spec(rngo, th))
 	mplib.run_mp_stream(rep, drv, 'C03', THEOREM + ' + Props/MP (rm_conservation, rm_never_negative)', 400 if th else 50, th, seed_off=13)
+
+def override_case(rep, drv, spec):
+	"""Orders SET from outside through step(order_quantity_override=...) (the reinforcement-learning entry point): whatever quantity a node is told
+	to order, on-order stays 'ordered and not yet received' and orders / shipments arrive after their lead times. The override is not part of the
+	Lean model; the property's predicate is evaluated on the real trajectory (the model only supplies the documented initial state)."""
+	import random
+	rng = random.Random(repr(spec['labels']) + str(spec['T']))
+	ov = []
+	for t in range(spec['T']):
+		ov.append({l: float(simlib.gen_value(rng, 0, 14, True)) for l in spec['labels'] if rng.random() < .35})
+	py = simlib.run_py(spec, mode='step', overrides=ov)
+	case = dict(spec, overrides=[{str(k): v for k, v in o.items()} for o in ov])
+	rep.case('order-override', case, nontrivial=any(ov))
+	if 'error' in py:
+		rep.diff('order-override', 'step() with order_quantity_override raised %s: %s' % (py['error'], py.get('msg')), case, oracle=True, theorem=THEOREM)
+		return
+	resp = drv.call('sim', **simlib.model_request(spec, exo_from=py['trace']))
+	init = simlib.canon_model({'trace': [resp['init']], 'total': '0', 'orderSeq': [], 'shipSeq': [], 'orderOK': True})['trace'][0]
+	fails = simlib.oracle_C03(spec, py['trace'], init, tol=F(1, 10 ** 9))          # outside the exact regime: forced orders make production shares non-dyadic
+	# the quantity told is the quantity ordered
+	pos, edges, inE, outE = simlib.layout(spec)
+	for t, o in enumerate(ov):
+		for l, q in o.items():
+			i = pos[l]
+			dis = spec['nodes'][str(l)]['dis']
+			if dis and dis['type'] == 'OP' and py['trace'][t]['nodes'][i]['disrupted']:
+				continue
+			for e in inE[i]:
+				if float(py['trace'][t]['edges'][e]['oq']) != q:
+					fails.append('t=%d node %s was told to order %s and ordered %s' % (t, l, q, float(py['trace'][t]['edges'][e]['oq'])))
+	if fails:
+		rep.diff('order-override', 'property predicate fails on the real code: ' + '; '.join(fails[:3]), case, py={'predicate_failures': fails[:10]}, oracle=True, theorem=THEOREM)
+
 
 def replay_mp(rep, drv, doc):
 	mplib.mp_case(rep, drv, doc['case'], 'C03', THEOREM)
@@ -25,4 +63,6 @@ def replay_mp(rep, drv, doc):
 def replay(rep, drv, doc):
 	if doc['stream'] == 'mp-kernels':
 		return replay_mp(rep, drv, doc)
+	if doc['stream'] == 'order-override':
+		return override_case(rep, drv, {k: v for k, v in doc['case'].items() if k != 'overrides'})
 	simstream.one_case(rep, drv, doc['stream'], doc['case'], FIELDS, oracle, THEOREM)
